@@ -82,6 +82,7 @@ pub struct Lexer<'a> {
     cur: i32,
     pub line: u32,
     buf: Vec<u8>,
+    tok_start: usize,
 }
 
 const EOZ: i32 = -1;
@@ -142,11 +143,11 @@ pub fn token2str(t: &Tok) -> String {
 }
 
 impl<'a> Lexer<'a> {
-    pub fn new(src: &'a [u8]) -> Lexer<'a> {
-        let mut lx = Lexer { src, pos: 0, cur: EOZ, line: 1, buf: Vec::new() };
+    pub fn new(src: &'a [u8], skip_hash_line: bool) -> Lexer<'a> {
+        let mut lx = Lexer { src, pos: 0, cur: EOZ, line: 1, buf: Vec::new(), tok_start: 0 };
         lx.next_char();
         // skip a first-line comment starting with '#' (as luaL_loadfilex does)
-        if lx.cur == b'#' as i32 {
+        if skip_hash_line && lx.cur == b'#' as i32 {
             while lx.cur != EOZ && lx.cur != b'\n' as i32 {
                 lx.next_char();
             }
@@ -424,10 +425,7 @@ impl<'a> Lexer<'a> {
                             continue;
                         }
                         x if x == b'u' as i32 => {
-                            // '\\' stays in the buffer until the escape is read
-                            let keep = self.buf.len() - 1;
-                            self.utf8_esc()?;
-                            self.buf.remove(keep);
+                            self.utf8_esc()?; // removes the '\\' itself
                             continue;
                         }
                         10 | 13 => {
@@ -478,6 +476,7 @@ impl<'a> Lexer<'a> {
     pub fn lex(&mut self) -> Result<Tok, LexError> {
         self.buf.clear();
         loop {
+            self.tok_start = self.idx();
             match self.cur {
                 10 | 13 => self.inc_line(),
                 32 | 12 | 9 | 11 => self.next_char(),
@@ -560,7 +559,7 @@ impl<'a> Lexer<'a> {
                     } else if !is_digit(self.cur) {
                         return Ok(Tok::Char(b'.'));
                     } else {
-                        return self.read_numeral_after_dot();
+                        return self.read_numeral();
                     }
                 }
                 c if is_digit(c) => return self.read_numeral(),
@@ -588,36 +587,43 @@ impl<'a> Lexer<'a> {
         }
     }
 
-    /// numeral starting with '.', the '.' is already in the buffer
-    fn read_numeral_after_dot(&mut self) -> Result<Tok, LexError> {
-        // read_numeral expects the first char to be current; emulate: the
-        // leading '.' is saved, continue the liberal loop
-        let expo = b"Ee";
-        loop {
-            if self.check_next2(expo) {
-                self.check_next2(b"-+");
-            }
-            if is_xdigit(self.cur) {
-                self.save_and_next();
-            } else if self.cur == b'.' as i32 {
-                self.save_and_next();
-            } else {
-                break;
-            }
-        }
-        match str2num(&self.buf) {
-            Some(Value::Int(i)) => Ok(Tok::Int(i)),
-            Some(Value::Float(f)) => Ok(Tok::Flt(f)),
-            _ => Err(self.error("malformed number", 1)),
+    /// index in the source of the current (not yet consumed) character
+    #[inline]
+    pub fn idx(&self) -> usize {
+        if self.cur == EOZ {
+            self.src.len()
+        } else {
+            self.pos - 1
         }
     }
 
-    /// `txtToken` for the token just produced by `lex` (must be called
-    /// before the next `lex`).
-    pub fn token_text(&self, t: &Tok) -> String {
+    /// `txtToken`: text used in "near ..." for a token that spans
+    /// `start..end` of the source.
+    pub fn near_text(&self, t: &Tok, start: usize, end: usize) -> String {
+        let end = end.min(self.src.len());
+        let start = start.min(end);
         match t {
-            Tok::Name(_) | Tok::Str(_) | Tok::Flt(_) | Tok::Int(_) => self.buf_text(),
+            Tok::Name(_) | Tok::Flt(_) | Tok::Int(_) => {
+                format!("'{}'", String::from_utf8_lossy(&self.src[start..end]))
+            }
+            Tok::Str(s) => {
+                let q = self.src.get(start).copied().unwrap_or(b'"');
+                if q == b'"' || q == b'\'' {
+                    format!("'{}{}{}'", q as char, String::from_utf8_lossy(s), q as char)
+                } else {
+                    format!("'{}'", String::from_utf8_lossy(&self.src[start..end]))
+                }
+            }
             other => token2str(other),
         }
+    }
+
+    /// lex one token and report its source span
+    pub fn lex_span(&mut self) -> Result<(Tok, usize, usize), LexError> {
+        // skip what `lex` would skip is not possible without lexing, so the
+        // start is found by lexing and looking at where the token ended:
+        // `lex` records the start itself.
+        let t = self.lex()?;
+        Ok((t, self.tok_start, self.idx()))
     }
 }
